@@ -66,6 +66,7 @@
 #include <sstream>
 #include <stdexcept>
 #include <string>
+#include <cstdlib>
 #include <string_view>
 #include <tuple>
 #include <vector>
@@ -1124,12 +1125,47 @@ void conv_case(Ints const &c)
     }
   }
 }
+// "string_conv_locale ... returns std::locale("")": the locale the environment names NOW. Case 0:
+// as the process was started. Case 1/2: the environment is changed between two calls (LC_ALL=C, a
+// conversion, then LC_ALL=C.UTF-8 resp. the other way round): the second call reflects the second
+// environment, and a non-ASCII string converts (or fails) accordingly. The environment is restored.
+void conv_env_case(i64 which_)
+{
+  int const which = static_cast<int>(((which_ % 3) + 3) % 3);
+  count(which != 0);
+  char const *const old = std::getenv("LC_ALL");
+  std::string const saved = old ? old : "";
+  auto const check_now = [&](char const *when) {
+    if (!(fcppt::string_conv_locale() == std::locale(""))) fail("string_conv_locale|not-the-environment-locale", std::string("string_conv_locale() != std::locale(\"\") ") + when);
+  };
+  if (which == 0) check_now("in the environment the process was started with");
+  else
+  {
+    char const *const first = which == 1 ? "C" : "C.UTF-8", *const second = which == 1 ? "C.UTF-8" : "C";
+    ::setenv("LC_ALL", first, 1);
+    check_now("after LC_ALL was set the first time");
+    (void)fcppt::to_std_wstring_locale(fcppt::string_view{"abc"}, fcppt::string_conv_locale());
+    ::setenv("LC_ALL", second, 1);
+    check_now("after LC_ALL was changed between two calls");
+    // the conversion that goes through it: "\xc3\xa4" is one character in the UTF-8 locale only
+    std::string const umlaut("\xc3\xa4");
+    bool converted = false;
+    try { converted = fcppt::to_std_wstring_locale(fcppt::string_view{umlaut}, fcppt::string_conv_locale()) == std::wstring(1, static_cast<wchar_t>(0xE4)); } catch (std::runtime_error const &) {}
+    bool const utf8_now = which == 1;
+    if (converted != utf8_now) fail("string_conv_locale|conversion-uses-a-stale-locale", std::string("after LC_ALL changed from ") + first + " to " + second + " a UTF-8 encoded umlaut " + (converted ? "converts" : "does not convert") + " through string_conv_locale()");
+  }
+  if (old) ::setenv("LC_ALL", saved.c_str(), 1);
+  else ::unsetenv("LC_ALL");
+}
+Reg const r_conv_env{"string_conv_locale_follows_environment", Kind::exhaustive, "the environment is changed between two calls",
+                     [] { for (i64 w = 0; w < 3; ++w) { cur1(w); conv_env_case(w); } },
+                     [](Ints const &c) { conv_env_case(c.at(0)); },
+                     [](Ints const &c) { static char const *const t[] = {"unchanged environment", "LC_ALL=C, then LC_ALL=C.UTF-8", "LC_ALL=C.UTF-8, then LC_ALL=C"}; return std::string("string_conv_locale with ") + t[((c.at(0) % 3) + 3) % 3]; }};
+
 Reg const r_conv{"string_conv_locale_text", Kind::random, "a string with a multi-byte character, a NUL, or ill-formed input",
                  [] {
                    cur1(0);
                    count(false);
-                   // "string_conv_locale ... returns std::locale("")"
-                   if (!(fcppt::string_conv_locale() == std::locale(""))) fail("string_conv_locale|not-the-environment-locale", "string_conv_locale() != std::locale(\"\")");
                    run_random(*g_cur.sec, {5000, 24}, {50000, 24});
                  },
                  conv_case,
